@@ -219,29 +219,10 @@ def run(chk):
         if counter is None:
             r7.fail("ObjectPool.get:capacity-source", "the pool size compared with max_size is `%s`, neither the length of a guarded deque nor a counter attribute" % (node_src(src) if src is not None else None), fn=getf, node=c)
             continue
-        # a derived counter: every site where an object leaves the pool for good must decrement it in the same block
-        missing = []
-        for m in pool.methods.values():
-            for n in walk_no_nested(m.node):
-                leaves = isinstance(n, ast.Expr) and isinstance(n.value, ast.Call) and call_name(n.value) == "self._after_remove"
-                if not leaves:
-                    continue
-                # inside a `for x in <snapshot>` clean-up loop (clear) the reset happens before the loop: accept a reset
-                # or decrement anywhere earlier in the function; otherwise require one in the same block
-                blk = None
-                par = getattr(n, "_parent", None)
-                for fld in ("body", "orelse", "finalbody"):
-                    if n in getattr(par, fld, []):
-                        blk = getattr(par, fld)
-                upd_same = [x for x in (blk or []) if isinstance(x, (ast.AugAssign, ast.Assign)) and any(is_self_attr(y, counter) for y in ast.walk(x.target if isinstance(x, ast.AugAssign) else x.targets[0]))]
-                upd_any = [x for x in walk_no_nested(m.node) if isinstance(x, (ast.AugAssign, ast.Assign)) and x.lineno < n.lineno and any(is_self_attr(y, counter) and isinstance(y.ctx, ast.Store) for y in ast.walk(x))]
-                in_cleanup_loop = isinstance(par, ast.For)
-                if not upd_same and not (in_cleanup_loop and upd_any) and not (m.name == "destroy" and upd_any):
-                    missing.append((m, n))
-        for m, n in missing:
-            r7.fail("ObjectPool.%s:counter-not-updated:%s" % (m.name, counter), "capacity is checked against the counter self.%s, but ObjectPool.%s discards an object (`%s`) without adjusting it: every connection that leaves the pool this way costs a slot for good, until calls fail with 'Too many objects'" % (counter, m.name, node_src(n, 60)), fn=m, node=n)
-        if not missing:
-            r7.ok("counter self.%s is adjusted wherever an object leaves the pool" % counter)
+        # a derived counter: that it always agrees with what the pool lists - on every order of calls, also when closing
+        # a connection fails or is interrupted half way - is decided on the sequential histories (R8): a counter that
+        # drifts shows as get() refusing with room left, or creating beyond max_size
+        r7.ok("capacity test uses the counter self.%s (its agreement with the books is R8's: histories with failing close callbacks)" % counter)
     # get(): once the object is registered as used, get() must not fail (the caller never learns about the object)
     fng, domg, outsg, _ = poolpaths.run_pool_method(prog, "get", fields, lock)
     leaks = []
